@@ -99,7 +99,8 @@ def _compile(doc):
         flowir = namespace_to_flowir(nsobj)
         comps = copy.deepcopy(flowir.get_components())
         verrors = [('%s: %s' % (type(x).__name__, x))[:300] for x in flowir.validate()]
-        return {'kind': 'ok', 'components': comps, 'validate': verrors}
+        envs = copy.deepcopy((flowir.raw().get('environments') or {}).get('default') or {})
+        return {'kind': 'ok', 'components': comps, 'validate': verrors, 'environments': envs}
     except Exception as e:
         d = _find_dsl_error(e)
         if d is not None:
@@ -158,7 +159,7 @@ def _leaves(prefix, value, out):
         out.append(('.'.join(prefix), str(value)))
 
 
-def observed_graph(comps):
+def observed_graph(comps, environments=None):
     """-> (problem or None, nodes {id: label}, edges {(producer id, consumer id): frozenset(labels)})"""
     ids = [(c.get('stage'), c.get('name')) for c in comps]
     if len(set(ids)) != len(ids):
@@ -194,7 +195,17 @@ def observed_graph(comps):
                 return 'dangling-reference:%s' % re.sub(r'[A-Za-z0-9_.-]+', 'w', str(r))[:40], {}, {}
             path = (m.group(3) or '').strip('/')
             edges.setdefault(((int(m.group(1)), m.group(2)), me), set()).add(('ref', path, m.group(4)))
-        nodes[me] = (tuple(sorted(fields)), tuple(tokens))
+        ename = c.get('command', {}).get('environment')
+        if ename is None:
+            env = None
+        elif ename == 'none':
+            env = ('none',)
+        elif isinstance(ename, str) and ename in (environments or {}):
+            d = environments[ename] or {}
+            env = ('dict', tuple(sorted((str(k), str(v)) for k, v in d.items()))) if d else ('none',)
+        else:
+            return 'unknown-environment', {}, {}
+        nodes[me] = (tuple(sorted(fields)), env, tuple(tokens))
     return None, nodes, dict((k, frozenset(v)) for k, v in edges.items())
 
 
@@ -208,6 +219,8 @@ def compare_graphs(exp_nodes, exp_edges, obs_nodes, obs_edges):
         b = sorted(obs_nodes.values(), key=repr)
         if sorted(repr(x[0]) for x in a) != sorted(repr(x[0]) for x in b):
             return 'fields'
+        if sorted(repr(x[:2]) for x in a) != sorted(repr(x[:2]) for x in b):
+            return 'environment'
         return 'arguments'
     g1, g2 = nx.DiGraph(), nx.DiGraph()
     for g, nodes, edges in ((g1, exp_nodes, exp_edges), (g2, obs_nodes, obs_edges)):
@@ -261,6 +274,7 @@ def judge(col, case):
     obs = observe(doc)
     kind = obs['kind']
     short = dict(obs)
+    short.pop('environments', None)
     if kind == 'ok':
         short['components'] = [{'id': [c.get('stage'), c.get('name')], 'arguments': c.get('command', {}).get('arguments'),
                                 'references': c.get('references')} for c in obs['components']]
@@ -289,7 +303,7 @@ def judge(col, case):
         col.outcome('%s -> %s' % (verdict, kind))
         return
     # compiled
-    problem, obs_nodes, obs_edges = observed_graph(obs['components'])
+    problem, obs_nodes, obs_edges = observed_graph(obs['components'], obs.get('environments'))
     if verdict == 'invalid':
         return fail('an invalid namespace (%s) was compiled instead of being rejected' % okind, 'invalid-accepted')
     if verdict == 'unmodelled':
@@ -306,7 +320,7 @@ def judge(col, case):
     exp_nodes, exp_edges = O.expected_graph(flat)
     diff = compare_graphs(exp_nodes, exp_edges, obs_nodes, obs_edges)
     if diff:
-        expected['nodes'] = dict(('/'.join(k), [list(v[0]), list(v[1])]) for k, v in exp_nodes.items())
+        expected['nodes'] = dict(('/'.join(k), [list(v[0]), v[1], list(v[2])]) for k, v in exp_nodes.items())
         expected['edges'] = sorted(['/'.join(a) + ' -> ' + '/'.join(b) + ' ' + repr(sorted(l, key=repr))
                                     for (a, b), l in exp_edges.items()])
         return fail('compiled FlowIR differs from the reference flattening in its %s (up to renaming)' % diff,
@@ -384,4 +398,97 @@ def replay(ctx, case):
 
 
 # ------------------------------------------------------------------------------------------------ known findings
-KNOWN_SELECTORS = {}
+def _instances(doc):
+    """step names of all component instances reachable from the entrypoint (with multiplicity)"""
+    templates = {}
+    for kind in ('workflows', 'components'):
+        for t in doc.get(kind) or []:
+            templates.setdefault(t['signature']['name'], (kind, t))
+    out = []
+
+    def walk(name, step, chain):
+        if name not in templates or name in chain:
+            return
+        kind, t = templates[name]
+        if kind == 'components':
+            out.append(step)
+            return
+        for s, child in (t.get('steps') or {}).items():
+            walk(child, s, chain + [name])
+
+    ep = doc.get('entrypoint') or {}
+    walk(ep.get('entry-instance'), 'entry-instance', [])
+    return out
+
+
+def _numeral(n):
+    out = ''
+    for v, sym in ((10, 'X'), (9, 'IX'), (5, 'V'), (4, 'IV'), (1, 'I')):
+        while n >= v:
+            out += sym
+            n -= v
+    return out
+
+
+def _generated_names(doc):
+    """the names the compiler derives from step names: s, s-I, s-II, ... per distinct step name (order independent)"""
+    counts = {}
+    for s in _instances(doc):
+        counts[s] = counts.get(s, 0) + 1
+    names = []
+    for s, k in sorted(counts.items()):
+        names.append(s)
+        names.extend('%s-%s' % (s, _numeral(i)) for i in range(1, k))
+    return names
+
+
+def _ids_collide(doc):
+    ids = []
+    for n in _generated_names(doc):
+        m = re.match(r'^(?:stage([0-9]+)\.)?(.*)$', n)
+        ids.append((int(m.group(1) or 0), m.group(2)))
+    return len(set(ids)) != len(ids)
+
+
+def _name_ends_with_digit(doc):
+    return any(re.search(r'[0-9]$', n) for n in _generated_names(doc))
+
+
+def _references_step_called_like_root(doc):
+    for w in doc.get('workflows') or []:
+        if 'entry-instance' in (w.get('steps') or {}):
+            for e in w.get('execute') or []:
+                for v in (e.get('args') or {}).values():
+                    if isinstance(v, str) and '<entry-instance' in v:
+                        return True
+    return False
+
+
+def _sel_hang_reference_lands_on_workflow(f):
+    if not f['sig'].endswith('|hang'):
+        return False
+    doc = f['case']['doc']
+    _v, kind, _ = classify(doc)
+    return kind in ('reference-to-unknown-step', 'reference-to-workflow') or _references_step_called_like_root(doc)
+
+
+def _sel_hang_dataflow_cycle(f):
+    return f['sig'].endswith('|hang') and classify(f['case']['doc'])[1] == 'dataflow-cycle'
+
+
+def _sel_generated_ids_collide(f):
+    return f['sig'].endswith('|exception:FlowIRComponentExists') and _ids_collide(f['case']['doc'])
+
+
+def _sel_step_name_ends_with_digit(f):
+    return (f['sig'].endswith('|exception:AttributeError')
+            and 'groupdict' in str((f.get('observed') or {}).get('observed', {}).get('msg', ''))
+            and _name_ends_with_digit(f['case']['doc']))
+
+
+KNOWN_SELECTORS = {
+    'hang_reference_lands_on_workflow': _sel_hang_reference_lands_on_workflow,
+    'hang_dataflow_cycle': _sel_hang_dataflow_cycle,
+    'generated_component_ids_collide': _sel_generated_ids_collide,
+    'component_step_name_ends_with_digit': _sel_step_name_ends_with_digit,
+}
